@@ -48,6 +48,18 @@ func handCases() []Hand {
 			Oracle: "noerr;val:[Ysa_Ysb]"},
 		{P: prog(Defn("insp", []string{"p", "#x"}, "", CallN("list", Var("p"), force("#x"))), CallN("map", Fn([]string{"#e"}, "", CallN("insp", Int(1), force("#e"))), CallN("list", QuoteSym("sa")))),
 			Oracle: "noerr"},
+		// the memo does not depend on the value: an argument evaluating to nil / false is evaluated once
+		{P: prog(Defn("f", []string{"#x"}, "", CallN("list", force("#x"), force("#x"), force("#x"))), CallN("f", Begin(tr(1), Nil()))),
+			Oracle: "trace:I1;val:<P_N_<P_N_<P_N_N>>>"},
+		{P: prog(Defn("k", []string{"#z"}, "", Var("#z")), Def("t", CallN("k", Begin(tr(1), Bool(false)))), CallN("list", force("t"), force("t"))),
+			Oracle: "trace:I1;val:<P_Bf_<P_Bf_N>>"},
+		// apply / map must leave the caller's array alone
+		{P: prog(Defn("lz", []string{"#x"}, "", plus(force("#x"), Int(1))), Defn("st", []string{"y"}, "", Var("y")), Def("v", Arr(Int(1), Int(2))),
+			CallN("list", CallN("map", Var("lz"), Var("v")), Var("v"), CallN("map", Var("st"), Var("v")), CallN("map", Var("lz"), Var("v")))),
+			Oracle: "noerr;val:<P_[I2_I3]_<P_[I1_I2]_<P_[I1_I2]_<P_[I2_I3]_N>>>>"},
+		{P: prog(Defn("lz2", []string{"#x", "y"}, "", plus(force("#x"), Var("y"))), Def("v", Arr(Int(1), Int(2))),
+			CallN("list", CallN("apply", Var("lz2"), Var("v")), Var("v"), CallN("apply", Var("lz2"), Var("v")), CallN("apply", Var("+"), Var("v")))),
+			Oracle: "noerr;val:<P_I3_<P_[I1_I2]_<P_I3_<P_I3_N>>>>"},
 		// a thunk is a first-class value: passing #x on hands the thunk to a strict formal
 		{P: prog(Defn("h", []string{"y"}, "", Var("y")), Defn("g", []string{"#x"}, "", CallN("h", Var("#x"))), CallN("g", tr(1))),
 			Oracle: "zero:I1;val:LZ", Tags: []string{"thunk-passed-on"}},
